@@ -33,6 +33,8 @@ pub enum SeedSpec {
     MuxShuffled { seed: u64 },
     /// many small structures of one kind (hundreds of traks, thousands of fragments / items)
     Scale { seed: u64 },
+    /// many traks whose parameter-set lengths point beyond their box into planted data
+    LengthChain { seed: u64 },
 }
 
 impl SeedSpec {
@@ -48,6 +50,7 @@ impl SeedSpec {
             SeedSpec::Grammar { .. } => "grammar",
             SeedSpec::MuxShuffled { .. } => "mux_shuffled",
             SeedSpec::Scale { .. } => "scale",
+            SeedSpec::LengthChain { .. } => "length_chain",
         }
     }
 }
@@ -710,6 +713,7 @@ pub fn build(spec: &SeedSpec) -> SeedImage {
             let (b, l) = grammar_image(*seed);
             SeedImage { bytes: b, init_len: l }
         }
+        SeedSpec::LengthChain { seed } => SeedImage { bytes: length_chain_image(*seed), init_len: None },
         SeedSpec::Scale { seed } => {
             let (b, l) = scale_image(*seed);
             SeedImage { bytes: b, init_len: l }
@@ -726,6 +730,9 @@ pub fn build(spec: &SeedSpec) -> SeedImage {
 pub fn gen_spec(r: &mut Rng) -> SeedSpec {
     if r.chance(1, 120) {
         return SeedSpec::Scale { seed: r.below(1 << 30) };
+    }
+    if r.chance(1, 400) {
+        return SeedSpec::LengthChain { seed: r.below(1 << 30) };
     }
     match r.below(28) {
         20..=25 => SeedSpec::Grammar { seed: r.below(1 << 40) },
@@ -1242,6 +1249,73 @@ pub fn scale_image(seed: u64) -> (Vec<u8>, Option<usize>) {
     (out, if nmoof > 0 { Some(init_len) } else { None })
 }
 
+/// "Length chain" image: many small AVC traks whose avcC declares parameter sets that lie far
+/// beyond the avcC box, in data planted behind the movie header so that every declared length
+/// is backed by bytes: [ftyp][moov: mvhd, trak x T][free: FF.. then 00..]. Each trak re-reads the
+/// same ~128 KiB; a parser that does not bound parameter sets by their box does T x 128 KiB of
+/// work and allocation on a file of about T x 0.6 KiB + 200 KiB.
+pub fn length_chain_image(seed: u64) -> Vec<u8> {
+    let mut r = Rng::new(seed ^ 0xC4A1);
+    let t = 40 + r.below(200) as usize;
+    // one valid AVC trak from the real muxer
+    let sc = MuxScenario {
+        cfg: MovieCfg { major: *b"isom", minor: 512, compat: vec![], timescale: 1000 },
+        ops: vec![
+            Op::AddTrack(TrackCfg { kind: Kind::Avc, track_type: 0, timescale: 1000, language: "und".into(), width: 16, height: 16, sps: vec![0x67, 0x42, 0, 0x1f], pps: vec![0x68], aac_profile: 2, freq_index: 3, chan_conf: 2, bitrate: 0 }),
+            Op::End,
+        ],
+        start_pos: 0,
+        io: IoKnobs::plain(),
+        preexisting: 0,
+    };
+    let base = mux_bytes(&sc);
+    let nodes = walk(&base);
+    let (Some(ftyp), Some(mvhd), Some(trak), Some(avcc)) = (
+        nodes.iter().find(|n| n.depth == 0 && n.is(b"ftyp")),
+        nodes.iter().find(|n| n.is(b"mvhd")),
+        nodes.iter().find(|n| n.depth == 1 && n.is(b"trak")),
+        nodes.iter().find(|n| n.is(b"avcC")),
+    ) else {
+        return base;
+    };
+    let trak_bytes = base[trak.start..trak.end()].to_vec();
+    let sps_len_at = avcc.body() + 6 - trak.start; // u16 length of the first SPS, relative to the trak
+    let moov_body_start = ftyp.size + 8 + mvhd.size; // offset of the first trak in the new file
+    let trak_len = trak_bytes.len();
+    let mut moov_kids = base[mvhd.start..mvhd.end()].to_vec();
+    for i in 0..t {
+        let mut tb = trak_bytes.clone();
+        tb[sps_len_at..sps_len_at + 2].copy_from_slice(&0xFFFFu16.to_be_bytes());
+        // two parameter sets are declared (low 5 bits of byte 5)
+        tb[sps_len_at - 1] = 0xE2;
+        // distinct track ids (tkhd is the first child: version/flags + 2 times + id)
+        let tk = 8 + 8 + 4 + 8;
+        tb[tk..tk + 4].copy_from_slice(&(i as u32 + 1).to_be_bytes());
+        moov_kids.extend_from_slice(&tb);
+    }
+    let moov = bx(b"moov", &moov_kids);
+    // first SPS of trak i: data at p_i = moov_body_start + i*trak_len + sps_len_at + 2, 65535 bytes;
+    // second SPS length at p_i + 65535 must read FFFF, its data another 65535 bytes, then the PPS
+    // count at p_i + 2*65535 + 2 must read 0
+    let p0 = moov_body_start + sps_len_at + 2;
+    let p_last = p0 + (t - 1) * trak_len;
+    let ff_from = p0 + 65535;
+    let ff_to = p_last + 65535 + 2;
+    let zero_to = p_last + 2 * 65535 + 2 + 1 + 64;
+    let mut out = cat(&[&base[ftyp.start..ftyp.end()], &moov]);
+    let free_start = out.len();
+    let total = zero_to.max(free_start + 16);
+    let mut free_body = vec![0u8; total - free_start - 8];
+    for (k, b) in free_body.iter_mut().enumerate() {
+        let pos = free_start + 8 + k;
+        if pos >= ff_from && pos < ff_to {
+            *b = 0xFF;
+        }
+    }
+    out.extend(bx(b"free", &free_body));
+    out
+}
+
 /// Returns (bytes, init_len if a fragmented tail was generated).
 pub fn grammar_image(seed: u64) -> (Vec<u8>, Option<usize>) {
     let mut r = Rng::new(seed ^ 0x6AA3);
@@ -1351,5 +1425,22 @@ mod grammar_tests {
         }
         eprintln!("grammar: {opened}/{n} open, {with_tracks} with tracks; errors: {errs:?}");
         assert!(opened * 100 / n >= 40, "only {opened}/{n} grammar images open");
+    }
+}
+
+#[cfg(test)]
+mod chain_tests {
+    use super::*;
+    use std::io::Cursor;
+    #[test]
+    fn length_chain_images_open() {
+        for seed in 0..5 {
+            let img = length_chain_image(seed);
+            let r = mp4::Mp4Reader::read_header(Cursor::new(img.clone()), img.len() as u64);
+            match r {
+                Ok(r) => eprintln!("seed {seed}: n={} tracks={}", img.len(), r.tracks().len()),
+                Err(e) => panic!("seed {seed}: n={} does not open: {e}", img.len()),
+            }
+        }
     }
 }
